@@ -30,13 +30,24 @@ def prepare(ctx, prop_file, own_files):
     _coqc_with_g16(ctx)
     # G16.Model's compiled form depends on g16's Tables.v (shape flags of header/header.go): regenerate and build it for
     # the tree under test, holding g16's lock so that a C16 check cannot interleave
-    with common.Lock("group-g16"):
-        ok16, msg16 = ctx.tables("g16")
-        if not ok16:
-            ob_failed.append("translator(gen/tables g16, imported rule model): " + msg16)
-        ok16, log16, failed16 = ctx.coq_make("g16")
-        if "Model.v" in failed16 or "Tables.v" in failed16:
-            ob_failed.append("coq/g16 (imported rule model) does not build: %s" % log16[-600:])
+    # (the caller holds g16's lock)
+    ok16, msg16 = ctx.tables("g16")
+    if not ok16:
+        ob_failed.append("translator(gen/tables g16, imported rule model): " + msg16)
+    ok16, log16, failed16 = ctx.coq_make("g16")
+    if "Model.v" in failed16 or "Tables.v" in failed16:
+        ob_failed.append("coq/g16 (imported rule model) does not build: %s" % log16[-600:])
+    # g01's compiled files that depend on G16 must not be older than g16's: make sees the time stamps, but a g16
+    # rebuilt with identical time stamp granularity or by another tree needs a clean rebuild of the dependants
+    g16m = os.path.join(common.VERIF, "coq", "g16", "Model.vo")
+    g01p = os.path.join(common.VERIF, "coq", GROUP, "ReqPipeline.vo")
+    if os.path.exists(g16m) and os.path.exists(g01p) and os.path.getmtime(g16m) >= os.path.getmtime(g01p):
+        for f in ("ReqPipeline", "ReqCheck", "ReqE2E", "ReqProofs", "RouteProofs", "E2EProofs", "Ob01", "C01", "C18"):
+            for ext in (".vo", ".vos", ".vok", ".glob"):
+                try:
+                    os.remove(os.path.join(common.VERIF, "coq", GROUP, f + ext))
+                except OSError:
+                    pass
     ok, msg = ctx.tables(GROUP)
     if not ok:
         ctx.log("tables:", msg)
